@@ -1244,8 +1244,10 @@ def enterOf (n r : Nat) (pre post : State) : List AgreementAbs.Ev :=
   let old := if pre.pl.round = r then pre.pl.period else 0
   if post.pl.round = r ∧ post.pl.period ≠ old then [.enter n post.pl.period (causeOf post.root r post.pl.period)] else []
 
+/-- an `ensure` action of round `r` is a commit of the certificate's value.  (A certificate for the bottom value is not
+projected: `voteTrackerContract` rules it out — `KindOK` — but the action list does not expose that.) -/
 def commitOf (n r : Nat) : Action → List AgreementAbs.Ev
-  | .ensure _ c => if c.round = r then [.commit n c.period c.proposal] else []
+  | .ensure _ c => if c.round = r ∧ c.proposal ≠ 0 then [.commit n c.period c.proposal] else []
   | _ => []
 
 /-- per handled event: delivered votes, `see`, `enter`, own votes, `commit` (oldest first) -/
